@@ -306,7 +306,7 @@ def main(argv=None):
         if nb["prop"] != prop or a.only:
             continue
         t1 = time.time()
-        env = dict(os.environ)
+        env = dict(os.environ, VERIF_TIER=a.tier)
         if REPO != "/repo":  # dev runs against a scratch copy: the native script must import that copy too
             env["PYTHONPATH"] = REPO + "/src" + (os.pathsep + env["PYTHONPATH"] if env.get("PYTHONPATH") else "")
         pr = subprocess.run([sys.executable, "-W", "ignore", os.path.join(ROOT, nb["script"])], capture_output=True, text=True, cwd=ROOT, env=env)
